@@ -137,7 +137,7 @@ func (s *state) exec(f []string) string {
 		return v, err == nil
 	}
 	// option numbers are uint16
-	if len(f) > 1 && f[0] != "setpath" && f[0] != "setloc" && f[0] != "addquery" && f[0] != "resetto" {
+	if len(f) > 1 && f[0] != "setpath" && f[0] != "setloc" && f[0] != "addquery" && f[0] != "resetto" && f[0] != "resetself" {
 		if v, ok := num(1); !ok || v > 65535 {
 			return "bad-op"
 		}
@@ -242,6 +242,25 @@ func (s *state) exec(f []string) string {
 		in, ok := parseItems(f[2:])
 		if !ok {
 			return "bad-op"
+		}
+		if s.pool {
+			c.msg.ResetOptionsTo(in)
+			return fmt.Sprintf("ret ok %d", s.tail())
+		}
+		return s.rawDone(c.opts.ResetOptionsTo(c.buf, in))
+	case "resetself":
+		// reset the object to a selection (subset / permutation / repetition, by index modulo the length) of ITS OWN
+		// current options: the values of `in` are views into the object's own value buffer
+		cur := s.options()
+		in := make(message.Options, 0, len(f)-1)
+		for _, a := range f[1:] {
+			i, err := strconv.ParseUint(a, 10, 32)
+			if err != nil {
+				return "bad-op"
+			}
+			if len(cur) > 0 {
+				in = append(in, cur[int(i)%len(cur)])
+			}
 		}
 		if s.pool {
 			c.msg.ResetOptionsTo(in)
